@@ -240,6 +240,11 @@ func runC16(c *Ctx) {
 		bad := bc.mk(base)
 		bad.method = c.Rng.Intn(3)
 		prior := genRuleSet(c, 3)
+		if i%4 == 0 && bad.primary.raw == "" && (bad.primary.body != "" || bad.primary.resp != "") {
+			// the very pattern is already bound to the same method by a VALID rule: the invalid
+			// selector must still be reported (the rule would otherwise be a silent no-op)
+			prior = append(prior, rrule{method: bad.method, primary: rbind{kind: bad.primary.kind, t: bad.primary.t}})
+		}
 		rules := append(append([]rrule{}, prior...), bad)
 		trie, outs := env.buildImplTrie(rules)
 		before, _ := env.buildImplTrie(prior)
